@@ -8,6 +8,7 @@ flush does nothing) over the same flat directory map. `absFS` maps a concrete st
 state it stands for.
 -/
 import ArvVerif.Proofs.C08_Load
+import ArvVerif.Proofs.C08_Tree5
 import ArvVerif.Props.C08
 namespace ArvVerif.C08
 
@@ -785,6 +786,47 @@ theorem C08_access_mode_table {F P W : Type} (impl : FileImpl F P W) (s : FS F P
     simp only [step, hg, hw, Bool.not_false, if_true]
   · intro hr n
     simp only [step, hg, handleRead, hr, Bool.not_false, if_true]
+
+/-! ### Treeness of the directory table -/
+
+/-- **The directory table is a tree, always.** `TreeInv` — the root is its own parent, every parent
+pointer names an existing directory, every parent chain reaches the root within `dirs.length` steps
+(so no cycle exists), every entry that names a directory names an existing one — holds for the empty
+filesystem and for every filesystem loaded from a manifest, and is preserved by every operation, for
+every file implementation (so for the model of the code and for the plain model alike). In
+particular `Rename` never creates a cycle: its "moved into itself" test is exactly strong enough. -/
+theorem C08_tree_invariant {F P W : Type} (impl : FileImpl F P W) :
+    (∀ w : W, TreeInv (FS.init w : FS F P W)) ∧
+    (∀ (s : FS F P W) (op : Op), TreeInv s → TreeInv (step impl s op).1) ∧
+    (∀ (s : FS F P W) (ops : List Op), TreeInv s → TreeInv (run impl s ops).1) :=
+  ⟨TreeInv.init, fun _ op h => step_tree impl h op, fun s ops h => run_tree impl ops s h⟩
+
+theorem C08_loaded_tree (streams : List (String × List Bytes × List (Nat × Nat × String))) (s : CFS)
+    (h : loadManifest hash streams = some s) : TreeInv s :=
+  loadManifest_tree streams s h
+
+/-- **The fuel-bounded ancestor walk is complete**: in a tree-shaped table, `ancestors dirs
+dirs.length d` (the model of Rename's `for node.Parent() != node` loop, which has no bound in the
+code) contains exactly the ancestors-or-self of `d`; the fuel `dirs.length` always suffices
+(pigeonhole on the parent chain). -/
+theorem C08_ancestors_complete {F P W : Type} {s : FS F P W} (h : TreeInv s) {d : Nat} (hd : d < s.dirs.length)
+    (k : Nat) : k ∈ ancestors s.dirs s.dirs.length d ↔ ∃ i, up s.dirs d i = k :=
+  mem_ancestors h.dirs.root s.dirs.length d k (h.dirs.reach d hd)
+
+/-- Path resolution stays inside the table: whatever `rlookup` returns for a parent path is an
+existing directory. -/
+theorem C08_lookup_valid {F P W : Type} {s : FS F P W} (h : TreeInv s) {comps : List String} {d : Nat}
+    (hl : lookupDir s comps = Except.ok d) : d < s.dirs.length :=
+  lookupDir_valid h hl
+
+/-- non-vacuity: a table in which directory 1 ("a") contains directory 2 ("b") is a tree, and moving
+"a" below "b" is exactly what the ancestor test forbids -/
+example : DirsOK [(".", 0), ("a", 0), ("b", 1)] := by
+  refine ⟨by decide, rfl, ?_, ?_⟩ <;> intro k hk <;>
+    (have : k = 0 ∨ k = 1 ∨ k = 2 := by simp at hk; omega) <;>
+    rcases this with h | h | h <;> subst h <;> decide
+
+example : (ancestors [(".", 0), ("a", 0), ("b", 1)] 3 2).contains 1 = true := by decide
 
 /-! ### Non-vacuity -/
 
